@@ -343,7 +343,10 @@ class Server(object):
         assert auth is not None
 
         try:
-            result = auth.server_attempt(arg)
+            # Waiting for the answer to a challenge is waiting for the
+            # client like waiting for a command is.
+            with Timeout(self.command_timeout):
+                result = auth.server_attempt(arg)
         except ValueError:
             bad_arguments.send(self.io)
             return
